@@ -516,56 +516,7 @@ func runC03Loop(c *Ctx) {
 			}
 			n++
 			construct := fmt.Sprintf("%s|range %s#%d", DeclName(info, d), exprStr(rs.X), n)
-			exit := ""
-			var walk func(x ast.Node, breakable bool)
-			walk = func(x ast.Node, breakable bool) {
-				ast.Inspect(x, func(y ast.Node) bool {
-					if y == nil || exit != "" {
-						return false
-					}
-					switch s := y.(type) {
-					case *ast.FuncLit:
-						return false
-					case *ast.ReturnStmt:
-						exit = "return at " + p.Pos(s.Pos())
-						return false
-					case *ast.BranchStmt:
-						if s.Tok == token.BREAK {
-							if s.Label != nil {
-								if s.Label.Name == labelOf[rs] {
-									exit = "break at " + p.Pos(s.Pos())
-								}
-							} else if breakable {
-								exit = "break at " + p.Pos(s.Pos())
-							}
-						}
-						if s.Tok == token.GOTO {
-							exit = "goto at " + p.Pos(s.Pos())
-						}
-					case *ast.ForStmt:
-						if y != x {
-							walk(s.Body, false)
-							return false
-						}
-					case *ast.RangeStmt:
-						if y != x {
-							walk(s.Body, false)
-							return false
-						}
-					case *ast.SwitchStmt:
-						walk(s.Body, false)
-						return false
-					case *ast.TypeSwitchStmt:
-						walk(s.Body, false)
-						return false
-					case *ast.SelectStmt:
-						walk(s.Body, false)
-						return false
-					}
-					return true
-				})
-			}
-			walk(rs.Body, true)
+			exit := loopEarlyExit(p, rs, labelOf[rs])
 			if exit != "" {
 				c.bad(construct, rs.Pos(), "the loop hands its elements to the expression scanner but can stop early ("+exit+"): the remaining elements are never checked")
 			} else {
@@ -574,4 +525,74 @@ func runC03Loop(c *Ctx) {
 			return true
 		})
 	})
+}
+
+// loopEarlyExit: the first statement in the body of a range loop that leaves the loop before every element was visited
+// (return, break of this loop, goto), or "".
+func loopEarlyExit(p *Prog, rs *ast.RangeStmt, label string) string {
+	exit := ""
+	var walk func(x ast.Node, breakable bool)
+	walk = func(x ast.Node, breakable bool) {
+		ast.Inspect(x, func(y ast.Node) bool {
+			if y == nil || exit != "" {
+				return false
+			}
+			switch s := y.(type) {
+			case *ast.FuncLit:
+				return false
+			case *ast.ReturnStmt:
+				exit = "return at " + p.Pos(s.Pos())
+				return false
+			case *ast.BranchStmt:
+				if s.Tok == token.BREAK {
+					if s.Label != nil {
+						if label != "" && s.Label.Name == label {
+							exit = "break at " + p.Pos(s.Pos())
+						}
+					} else if breakable {
+						exit = "break at " + p.Pos(s.Pos())
+					}
+				}
+				if s.Tok == token.GOTO {
+					exit = "goto at " + p.Pos(s.Pos())
+				}
+			case *ast.ForStmt:
+				if y != x {
+					walk(s.Body, false)
+					return false
+				}
+			case *ast.RangeStmt:
+				if y != x {
+					walk(s.Body, false)
+					return false
+				}
+			case *ast.SwitchStmt:
+				walk(s.Body, false)
+				return false
+			case *ast.TypeSwitchStmt:
+				walk(s.Body, false)
+				return false
+			case *ast.SelectStmt:
+				walk(s.Body, false)
+				return false
+			}
+			return true
+		})
+	}
+	walk(rs.Body, true)
+	return exit
+}
+
+// rangeLabels: the label of each labelled range statement of a function body.
+func rangeLabels(body *ast.BlockStmt) map[*ast.RangeStmt]string {
+	out := map[*ast.RangeStmt]string{}
+	ast.Inspect(body, func(nd ast.Node) bool {
+		if ls, ok := nd.(*ast.LabeledStmt); ok {
+			if rs, ok := ls.Stmt.(*ast.RangeStmt); ok {
+				out[rs] = ls.Label.Name
+			}
+		}
+		return true
+	})
+	return out
 }
